@@ -290,6 +290,26 @@ func c02Config(c *engine.Ctx, name string, m ref.Msg, mi, si int, senderI bool) 
 			x[pos] ^= 1 << uint(bit)
 		}
 	}
+	// thorough: every pair of bit flips inside the cleartext header and SK generic header / IV start (first 48
+	// octets), and every pair inside the last ciphertext block and the ICV
+	if c.Thorough() && mi%4 == 0 {
+		regions := [][2]int{{0, 48}, {len(g1) - icv - 16, len(g1)}}
+		for _, rg := range regions {
+			lo, hi := rg[0]*8, rg[1]*8
+			if lo < 0 {
+				lo = 0
+			}
+			for a := lo; a < hi; a++ {
+				for b := a + 1; b < hi; b++ {
+					x[a/8] ^= 1 << uint(a%8)
+					x[b/8] ^= 1 << uint(b%8)
+					try(x, "bitflip2", nil)
+					x[a/8] ^= 1 << uint(a%8)
+					x[b/8] ^= 1 << uint(b%8)
+				}
+			}
+		}
+	}
 	// every proper prefix
 	for l := 0; l < len(g1); l++ {
 		try(g1[:l], "prefix", func(cs *c02Case) { cs.ParseH = l%2 == 1 && l >= 28 })
